@@ -373,6 +373,50 @@ CHECKS = {
 }
 
 
+def walk_tie(rep, rows, comp):
+    """ties the abstract walk of the C01 theorems (Bw/Walk.lean) to the code: for every file of every generated diff the
+    (line, is-edit) entries the real `line_changes_from_diff` reports must equal `Walk.walk segs`; the known-finding class
+    used by the oracle must be Lean's decidable `knownDel`"""
+    d = os.path.join(K.WORK, rep.prop, "walk_" + comp.replace(" ", "_"))
+    os.makedirs(d, exist_ok=True)
+    items = []
+    for case, impl, model in rows:
+        if "changes" not in impl or "err" in impl.get("ctx", {}) and str(impl["ctx"]["err"][0].get("kind", "")).startswith("diff-"):
+            continue
+        for mf in case["meta"]["files"]:
+            if mf.get("new_file") is None and "segs" not in mf:
+                continue
+            items.append((case, impl, mf))
+    with open(os.path.join(d, "ops.jsonl"), "w") as f:
+        for _, _, mf in items:
+            f.write(json.dumps({"op": "walk", "segs": mf["segs"]}) + "\n")
+    K.run_model(os.path.join(d, "ops.jsonl"), os.path.join(d, "out.jsonl"))
+    bad = 0
+    for (case, impl, mf), line in zip(items, open(os.path.join(d, "out.jsonl"))):
+        w = json.loads(line)
+        rep.evaluations += 1
+        got = [[c["line"], c["ranges"] is not None] for c in impl["changes"].get(mf["path"], [])]
+        if not any(ch in mf["segs"] for ch in "ad"):
+            continue
+        if mf["path"] not in impl["changes"] and mf["segs"].lstrip("d").count("d") == 0 and "a" not in mf["segs"]:
+            # unidiff's is_removed_file(): a single hunk with target 0,0 (only the first lines of the file deleted) is
+            # treated as a deleted file and skipped - modelled in Bw/Unidiff.lean (File.isRemoved), pinned by a unit test
+            rep.count(f"{comp}:walk-tie:removed-file-rule")
+            continue
+        rep.count(f"{comp}:walk-tie:" + ("known-class" if w["knownDel"] else "exact"))
+        py_known = faithful_walk(mf["segs"]) != repaired_walk(mf["segs"])
+        problems = []
+        if got != w["walk"]:
+            problems.append({"field": "line change entries (line, is_edit)", "impl": got, "model_and_spec": w["walk"]})
+        if (w["walk"] != w["walkR"]) != py_known or (not w["knownDel"] and w["walk"] != w["walkR"]):
+            problems.append({"field": "known class", "lean_knownDel": w["knownDel"], "walk": w["walk"], "walkR": w["walkR"]})
+        if problems:
+            bad += 1
+            if bad <= 3:
+                rep.violation({"property": rep.prop, "component": comp + " (walk tie)", "what": "the code's hunk walk differs from the abstract walk the C01 theorems are about",
+                               "segs": mf["segs"], "file": mf["path"], "diff": case.get("diff"), "differences": problems})
+
+
 def diff_check(modes, quick_n, thorough_n, rule):
     def run(rep, tier, seed, tr):
         n = n_for(tier, quick_n, thorough_n)
@@ -384,6 +428,7 @@ def diff_check(modes, quick_n, thorough_n, rule):
             K.correspondence(rep, rows, f"diff {mode}", nontrivial, known=K.load_known(rep.prop), oracle=oracle_drift)
             for k, v in drift_known_counts(rows).items():
                 rep.count(f"diff {mode}:ground-truth-failure-in-known-class:{k}", v)
+            walk_tie(rep, rows, f"diff {mode}")
             for case, _, _ in rows:
                 for f in case["meta"]["files"]:
                     for c in f["classes"]:
